@@ -5,16 +5,18 @@ from .c01 import C01
 class C10(ChanSpec):
     id = "C10"
     design_ref = "DESIGN.md §6 C10 (Chan LTS)"
-    technique = "Lean 4 proof that the wire consists of acceptance-time values (corollary of the FIFO invariant) + monitored executions of the real channel in which callers overwrite their buffers right after every call and pooled buffers are recycled under contention"
+    technique = "Lean 4 proof (ownership invariant over a heap of buffers: what the channel holds keeps its call-time content whatever callers and pool users scribble; wire = call-time payloads in order) + monitored executions of the real channel in which callers overwrite their buffers right after every call and a foreign pool user scribbles on pooled buffers of every size class"
     level_text = ("Lean 4 theorems over the Chan LTS: the wire is always a prefix of the accepted payload *values* fixed at the acceptance step and no later step changes an accepted value. "
-                  "That the implementation takes that snapshot (copy-on-enqueue, recycle only after Writev, no aliasing through the pool) is not modelled as a heap in Lean; it is decided by the "
-                  "tie: every caller overwrites its buffer with 0xEE immediately after its call returns, payloads of every pool class incl. > 65536 bytes are used, several senders/writers "
-                  "recycle and re-obtain pooled buffers under controlled interleavings, and the property predicate compares every transport unit with the call-time payload. Partial: buffer "
-                  "ownership is an assumption of the model, validated by the tie.")
-    level_note = C01.level_note + " Buffer/pool aliasing is observed only through its effect on transmitted bytes."
-    rule = C01.rule + "; every write op has the overwrite flag; 1/12 of single-buffer ops carry 65537-65539 bytes"
+                  "Why the value is fixed is proved over a heap model (buffers with owners: caller / pool user / pool / channel): for every interleaving of write calls, callers overwriting "
+                  "their buffers, other goroutines obtaining, scribbling on and returning pooled buffers, and the sender's dequeue / Writev / recycle steps, as long as every write copies into "
+                  "a pooled buffer and buffers are returned only after the transport write, every buffer the channel holds has its call-time content and the wire is the sequence of "
+                  "call-time payloads; dropping the copy or recycling early is refuted by concrete histories. Tie: every caller overwrites its buffer with 0xEE immediately after its call "
+                  "returns, payloads of every pool class incl. > 65536 bytes are used, a foreign pool user obtains / scribbles on / returns buffers of five size classes while the sender "
+                  "batches and recycles, under controlled interleavings; the property predicate compares every transport unit with the call-time payload.")
+    level_note = C01.level_note + " The heap model's step from code to ownership (asyncWrite copies unless the buffer was obtained from the pool by the channel itself; writeOnce recycles after Writev) is read off the source and validated through its effect on transmitted bytes; exclusive hand-out by the pool is C19's theorem."
+    rule = C01.rule + "; every write op has the overwrite flag; 1/12 of single-buffer ops carry 65537-65539 bytes; 1/2 of the scenarios add a goroutine that gets / scribbles on / returns pooled buffers of 1, 16, 700, 2048 and 65536 bytes with a scheduling point while it holds each"
     assumptions = C01.assumptions
-    modelled_not_verified = C01.modelled_not_verified + ("buffer identity / aliasing (heap)",)
+    modelled_not_verified = C01.modelled_not_verified + ("buffer identity (the heap model is not monitored step by step)",)
 
 
 SPEC = C10()
